@@ -6,6 +6,9 @@ CONSTANTS
   Vias <- ViasAll
   MaxInject = 1
   Spoof = FALSE
+  Confs <- ConfsAll
+  Stores <- StoresQuick
+  Ancs <- AncsTs
   RestoreAtTop = TRUE
 CONSTRAINTS GenQuick GenStop
 INVARIANTS Emit
